@@ -32,6 +32,22 @@ def unName : Spec.UnOp → Str
 
 /-! ### the image of a source tree in the model's AST -/
 
+/-- built-in properties of an indexed object, read by `objProp`: the model's leaf class of the object, the spec's property
+    table, the word the object is printed with (`the loop of cast 3` for a video property) -/
+def theTbl : Spec.Tbl → Option (Lscr.Leaf × List (Nat × String) × String)
+  | .sound => some (.soundChan, Spec.tblSound, "sound")
+  | .sprite => some (.sprite, Spec.tblSprite, "sprite")
+  | .cast => some (.cast, Spec.tblCast, "cast")
+  | .video => some (.cast, Spec.tblVideo, "cast")
+  | _ => none
+
+/-- the object index as the model keeps it: the `.name` of the popped node — faithful exactly for literals and variables (F20) -/
+def idxName : Spec.Expr → Option Lscr.Name
+  | .int k => some (.s (Lscr.natStr k))
+  | .str v => some (.s (Lscr.escapeString v))
+  | .var _ v => some (.s v)
+  | _ => none
+
 mutual
 /-- `Emb e n`: `n` is the node the model builds for `e` (any positions) -/
 def Emb : Spec.Expr → Node → Prop
@@ -53,6 +69,8 @@ def Emb : Spec.Expr → Node → Prop
   | .the .sys k [], n => ∃ p q o, n = .propAcc p (.leaf .localVar (.s o) q) (Spec.nameOrUnknown Spec.tblSys k) ∧
       (Lscr.startsWith o (S "_") = true ∨ o = S "tell_obj")
   | .the .special k [], n => ∃ p, n = .leaf .propName (.s (Spec.nameOrUnknown Spec.tblSpecial k)) p
+  | .the t k [e], n => ∃ p q cls tb w nm, theTbl t = some (cls, tb, w) ∧ idxName e = some nm ∧
+      n = .propAcc p (.leaf cls nm q) (Spec.nameOrUnknown tb k)
   | _, _ => False
 /-- argument lists, in source order (the model stores them in pop order = reversed) -/
 def EmbL : List Spec.Expr → List Node → Prop
@@ -82,11 +100,41 @@ def EmbH (hs : List Spec.Name) : Spec.Expr → Node → Prop
   | .the .sys k [], n => ∃ p q o, n = .propAcc p (.leaf .localVar (.s o) q) (Spec.nameOrUnknown Spec.tblSys k) ∧
       (Lscr.startsWith o (S "_") = true ∨ o = S "tell_obj")
   | .the .special k [], n => ∃ p, n = .leaf .propName (.s (Spec.nameOrUnknown Spec.tblSpecial k)) p
+  | .the t k [e], n => ∃ p q cls tb w nm, theTbl t = some (cls, tb, w) ∧ idxName e = some nm ∧
+      n = .propAcc p (.leaf cls nm q) (Spec.nameOrUnknown tb k)
   | _, _ => False
 def EmbLH (hs : List Spec.Name) : List Spec.Expr → List Node → Prop
   | [], ns => ns = []
   | e :: es, ns => ∃ x xs, ns = x :: xs ∧ EmbH hs e x ∧ EmbLH hs es xs
 end
+
+/-- a node that is the image of a non-symbol expression is not a Symbol (no fragment hypothesis) -/
+theorem emb_symName' (e : Spec.Expr) (n : Node) (h : Emb e n) (hs : ∀ v, e ≠ .sym v) : n.symName? = none := by
+  cases e with
+  | int k => obtain ⟨p, rfl⟩ := h; rfl
+  | str s => obtain ⟨p, rfl⟩ := h; rfl
+  | sym s => exact absurd rfl (hs s)
+  | var k v => cases k <;> (obtain ⟨p, rfl⟩ := h; rfl)
+  | un op a => obtain ⟨p, y, rfl, _⟩ := h; rfl
+  | bin op a b => obtain ⟨p, y, z, rfl, _⟩ := h; rfl
+  | field a => obtain ⟨p, y, rfl, _⟩ := h; rfl
+  | call f as => obtain ⟨p, p', wr, ops, rfl, _⟩ := h; rfl
+  | list as => obtain ⟨p, p', ops, rfl, _⟩ := h; rfl
+  | key v => obtain ⟨p, rfl⟩ := h; rfl
+  | movie v => rcases h with ⟨p, rfl⟩ | ⟨p, q, o, rfl, _⟩ <;> rfl
+  | the t k as =>
+    cases as with
+    | cons y ys =>
+      cases ys with
+      | cons z zs => cases t <;> exact absurd h (by simp [Emb])
+      | nil => simp only [Emb] at h; obtain ⟨p, q, cls, tb, w, nm, _, _, rfl⟩ := h; rfl
+    | nil =>
+      cases t with
+      | sys => simp only [Emb] at h; obtain ⟨p, q, o, rfl, _⟩ := h; rfl
+      | special => simp only [Emb] at h; obtain ⟨p, rfl⟩ := h; rfl
+      | _ => exact absurd h (by simp [Emb])
+  | _ => exact absurd h (by simp [Emb])
+
 
 /-- assignment target of `set v = e` -/
 def EmbLv : Spec.Expr → Node → Prop
@@ -162,6 +210,7 @@ def FragE : Spec.Expr → Bool
   | .movie v => idOk v
   | .the .sys k [] => Spec.tblSys.any (fun x => x.1 == k)
   | .the .special k [] => decide (k < 6)
+  | .the t k [e] => (match theTbl t with | some (_, tb, _) => tb.any (fun x => x.1 == k) | none => false) && (idxName e).isSome && FragE e
   | _ => false
 def FragL : List Spec.Expr → Bool
   | [] => true
@@ -253,6 +302,10 @@ def mE : Spec.Expr → Str
   | .movie v => S "the " ++ v
   | .the .sys k [] => S "the " ++ Spec.nameOrUnknown Spec.tblSys k
   | .the .special k [] => S "the " ++ Spec.nameOrUnknown Spec.tblSpecial k
+  | .the t k [e] =>
+    (match theTbl t with
+     | some (_, tb, w) => S "the " ++ Spec.nameOrUnknown tb k ++ S " of " ++ w.toList ++ S " " ++ mE e
+     | none => [])
   | _ => []
 /-- `", ".join(...)` -/
 def mArgs : List Spec.Expr → Str
